@@ -159,8 +159,11 @@ func (p *SyncedPool) Flush(id []byte) error {
 }
 
 func (p *SyncedPool) flush(id []byte) error {
+	// detach the databases queued for dropping; they are dropped only after the remaining
+	// databases carry the dirty flag, so that a crash right after a drop is not mistaken for
+	// the previous clean state
 	queuedDropsList := p.popQueuedDrops()
-	// close and drop DBs
+	toDrop := make([]kvdb.Store, 0, len(queuedDropsList))
 	for _, name := range queuedDropsList {
 		w := p.wrappers[name]
 		delete(p.wrappers, name)
@@ -175,7 +178,7 @@ func (p *SyncedPool) flush(id []byte) error {
 		if db == nil {
 			continue
 		}
-		db.Drop()
+		toDrop = append(toDrop, db)
 	}
 
 	// write dirty flags
@@ -191,7 +194,10 @@ func (p *SyncedPool) flush(id []byte) error {
 		}
 	}
 
-	// flush data
+	for _, db := range toDrop {
+		db.Drop()
+	}
+
 	for _, wrapper := range p.wrappers {
 		err := wrapper.Flushable.Flush()
 		if err != nil {
